@@ -152,6 +152,7 @@ type Exec struct {
 	specCache map[string]Val
 	lastSpecKey, lastSpecName string
 	siteVars  map[string]Val
+	forallVars map[string]Val
 	opaqueSig map[string]string
 	specCache2 map[string][]specEntry
 	readTrace []*readRec
